@@ -34,6 +34,8 @@ use std::fmt::Write as _;
 use syn::spanned::Spanned;
 use syn::*;
 
+mod t6w;
+
 const FEATURES: &[&str] = &["aes-crypto", "bzip2", "deflate", "time", "zstd"];
 
 type R<T> = std::result::Result<T, String>;
@@ -96,6 +98,9 @@ enum Mode {
     /// tier T5, `Rs.P σ`: functions returning `ZipResult` that mutate a `x: &mut Struct` parameter (the
     /// parameter's value survives an `Err`): every failure site carries the current value
     P,
+    /// tier T6 (`t6w.rs`), `Rs.S σ`: `&mut self` methods of a structure that owns its sink (state
+    /// machine over the model's I/O monad); `self` is threaded like the P-mode parameter
+    S,
 }
 
 #[derive(Clone, Debug)]
@@ -179,6 +184,8 @@ struct Tr<'a> {
     nontail_sub: usize,
     /// the statement about to be translated is already inside its own value block
     skip_tuple: bool,
+    /// S mode (t6w.rs): aliases of parts of `self`
+    s: t6w::SState,
 }
 
 fn path_last(p: &Path) -> String {
@@ -282,7 +289,7 @@ impl<'r, 'ast> syn::visit::Visit<'ast> for AssignedVars<'r> {
     fn visit_expr_method_call(&mut self, m: &'ast ExprMethodCall) {
         let name = m.method.to_string();
         let mutating = name.starts_with("read_")
-            || self.reg.methods.iter().any(|(k, i)| k.ends_with(&format!("::{name}")) && i.mut_self);
+            || self.reg.methods.iter().any(|(k, i)| k.ends_with(&format!("::{name}")) && i.mut_self && i.fi.mode != Mode::S);
         if mutating {
             if let Some(n) = path_ident(&m.receiver) {
                 self.out.push(n);
@@ -477,6 +484,7 @@ impl<'a> Tr<'a> {
             loop_state: None,
             nontail_sub: 0,
             skip_tuple: false,
+            s: t6w::SState::default(),
         }
     }
 
@@ -491,23 +499,29 @@ impl<'a> Tr<'a> {
         match self.mode {
             Mode::R => "Rs.R",
             Mode::P => "Rs.P",
+            Mode::S => "Rs.S",
             _ => "Rs.W",
         }
     }
     /// P mode: the current value of the `&mut` parameter, passed to every failure site
     fn sfx(&self) -> String {
         match (&self.mode, &self.pstate) {
-            (Mode::P, Some(p)) => format!(" {p}"),
+            (Mode::P, Some(p)) | (Mode::S, Some(p)) => format!(" {p}"),
             _ => String::new(),
         }
     }
     /// the mode has statement-level `match`, `break`, general `return`
     fn t5(&self) -> bool {
-        matches!(self.mode, Mode::R | Mode::P)
+        matches!(self.mode, Mode::R | Mode::P | Mode::S)
     }
 
     /// Light type synthesis: the Lean type of a Rust expression when it is evident, else `None`.
     fn type_of(&self, e: &Expr) -> Option<String> {
+        if self.mode == Mode::S {
+            if let Some(t) = self.s_type_of(e) {
+                return Some(t);
+            }
+        }
         match e {
             Expr::Paren(p) => self.type_of(&p.expr),
             Expr::Group(g) => self.type_of(&g.expr),
@@ -686,6 +700,11 @@ impl<'a> Tr<'a> {
                         .collect(),
                     _ => vec![],
                 };
+                if self.mode == Mode::S {
+                    if let Some(r) = t6w::s_ty(self, &name, &args) {
+                        return r;
+                    }
+                }
                 match name.as_str() {
                     "Self" => self.self_ty.clone().map(|s| format!("Gen.{s}")).ok_or("Self outside impl".into()),
                     "Wrapping" => Ok(format!("(Rs.Wrapping {})", self.ty(args[0])?)),
@@ -751,6 +770,11 @@ impl<'a> Tr<'a> {
     fn expr(&mut self, e: &Expr) -> R<String> {
         let exp = self.expect.take();
         let tail = std::mem::take(&mut self.tail);
+        if self.mode == Mode::S {
+            if let Some(v) = self.s_expr(e, &exp, tail)? {
+                return Ok(v);
+            }
+        }
         match e {
             Expr::Paren(p) => {
                 self.expect = exp;
@@ -1503,7 +1527,7 @@ impl<'a> Tr<'a> {
                                     let ks: Vec<String> = kp.path.segments.iter().map(|s| s.ident.to_string()).collect();
                                     if ks.len() >= 2 && ks[ks.len() - 2] == "ErrorKind" {
                                         let k = &ks[ks.len() - 1];
-                                        if ["Other", "InvalidData", "InvalidInput", "UnexpectedEof", "WriteZero"].contains(&k.as_str()) {
+                                        if ["Other", "InvalidData", "InvalidInput", "UnexpectedEof", "WriteZero", "BrokenPipe"].contains(&k.as_str()) {
                                             return Ok(format!("(Rs.ZipErr.Io Rs.IoKind.{k})"));
                                         }
                                         return Err(format!("io::ErrorKind::{k}"));
@@ -2192,7 +2216,7 @@ impl<'a> Tr<'a> {
                 }
             }
         }
-        let cands: Vec<(&String, &MethodInfo)> = self.reg.methods.iter().filter(|(k, i)| k.ends_with(&format!("::{name}")) && i.has_self).collect();
+        let cands: Vec<(&String, &MethodInfo)> = self.reg.methods.iter().filter(|(k, i)| k.ends_with(&format!("::{name}")) && i.has_self && i.fi.mode != Mode::S).collect();
         if cands.len() == 1 {
             let ty = cands[0].0.split("::").next().unwrap().to_string();
             return Some((ty, cands[0].1.clone()));
@@ -2201,6 +2225,9 @@ impl<'a> Tr<'a> {
     }
 
     fn stmt(&mut self, s: &Stmt) -> R<()> {
+        if self.mode == Mode::S && self.s_stmt(s)? {
+            return Ok(());
+        }
         match s {
             Stmt::Local(l) => {
                 if !cfg_on(&l.attrs) {
@@ -2380,7 +2407,7 @@ impl<'a> Tr<'a> {
 
     fn stmt_expr(&mut self, e: &Expr) -> R<()> {
         let skip = std::mem::take(&mut self.skip_tuple);
-        if self.t5() && !skip && matches!(e, Expr::If(_) | Expr::Match(_)) {
+        if self.t5() && self.mode != Mode::S && !skip && matches!(e, Expr::If(_) | Expr::Match(_)) {
             if let Some(vars) = self.tuple_vars(e) {
                 // one bind of the new values of the assigned variables
                 let tys: Vec<String> = vars.iter().map(|v| self.vars.get(v).cloned().unwrap()).collect();
@@ -2481,7 +2508,7 @@ impl<'a> Tr<'a> {
                 let v = self.expr(inner)?;
                 if self.in_loop > 0 {
                     self.emit(format!("return Rs.Step.ret {v}"));
-                } else if let (Mode::P, Some(p)) = (&self.mode, &self.pstate) {
+                } else if let (Mode::P | Mode::S, Some(p)) = (&self.mode, &self.pstate) {
                     self.emit(format!("return ({v}, {p})"));
                 } else {
                     self.emit(format!("return {v}"));
@@ -2546,7 +2573,7 @@ impl<'a> Tr<'a> {
                 // not duplicated into both branches by the do-elaborator)
                 if self.t5() && i.else_branch.is_none() && self.lines.len() == mark + 1 {
                     let act = self.lines[mark].trim_start().to_string();
-                    if act.starts_with("Rs.R.err ") || act.starts_with("Rs.P.err ") || act.starts_with("Model.M.throw ") {
+                    if act.starts_with("Rs.R.err ") || act.starts_with("Rs.P.err ") || act.starts_with("Rs.S.err ") || act.starts_with("Model.M.throw ") {
                         self.lines.truncate(head);
                         self.emit(format!("(if {c} then {act} else pure ())"));
                         self.rest = outer_rest;
@@ -3433,7 +3460,7 @@ fn main() {
                         }
                     }
                 }
-                "struct" => { reg.structs.insert(name.clone()); }
+                "struct" | "sstruct" => { reg.structs.insert(name.clone()); }
                 "aconst" => { reg.aconsts.insert(name.clone(), ()); }
                 "errfn" => {
                     for it in &all {
@@ -3472,13 +3499,19 @@ fn main() {
                         }
                     }
                 }
-                "struct" => {
+                "sfn" => {
+                    if let Some(mi) = t6w::sfn_info(&reg, &all, name) {
+                        reg.methods.insert(name.clone(), mi);
+                    }
+                }
+                "struct" | "sstruct" => {
                     for it in &all {
                         if let Item::Struct(st) = it {
                             if st.ident != name || !cfg_on(&st.attrs) { continue; }
                             let mut m = HashMap::new();
                             if let Fields::Named(n) = &st.fields {
-                                let tr = Tr::new(&reg, &no_failed, Some(name.clone()), 0);
+                                let mut tr = Tr::new(&reg, &no_failed, Some(name.clone()), 0);
+                                if kind == "sstruct" { tr.mode = Mode::S; }
                                 for fl in &n.named {
                                     if !cfg_on(&fl.attrs) { continue; }
                                     if let Ok(t) = tr.ty(&fl.ty) {
@@ -3623,11 +3656,13 @@ fn main() {
                         }
                         Err("not found".into())
                     }
-                    "struct" => {
+                    "sfn" => t6w::translate_sfn(&reg, &failed, &all, name),
+                    "struct" | "sstruct" => {
                         for it in &all {
                             if let Item::Struct(st) = it {
                                 if st.ident != name || !cfg_on(&st.attrs) { continue; }
-                                let tr = Tr::new(&reg, &failed, Some(name.clone()), 0);
+                                let mut tr = Tr::new(&reg, &failed, Some(name.clone()), 0);
+                                if kind == "sstruct" { tr.mode = Mode::S; }
                                 let mut s = format!("structure Gen.{name} where\n");
                                 let mut dropped = vec![];
                                 if let Fields::Named(n) = &st.fields {
@@ -3747,6 +3782,9 @@ fn main() {
         }
         if fo.body.contains("Rs.L.") || fo.body.contains("Rs.IoRes") || fo.body.contains("Rs.Crc32Hasher") {
             writeln!(text, "import ZipVerif.Basic.RsL").unwrap();
+        }
+        if fo.body.contains("Rs.S.") {
+            writeln!(text, "import ZipVerif.Basic.RsS").unwrap();
         }
         for i in &fo.imports { writeln!(text, "import ZipVerif.Gen.{i}").unwrap(); }
         writeln!(text, "/- GENERATED by rs2lean from /repo/src/{} on every check run. Do not edit. -/", f.rs).unwrap();
